@@ -534,3 +534,224 @@ Proof.
   change (fun e => bytes_eqb (e_path e) (node_name n)) with (at_p (node_name n)).
   rewrite filter_app, A1, filter_map_fresh, A2, named_unique; auto.
 Qed.
+
+(* ---- the ordered-list equation of the pass, for archives without duplicate names ---- *)
+Section Spec.
+Variable excl : list bytes.
+Variable cond : N.
+
+Definition refresh_of (targets : list node) (e : entry) : option node :=
+  match find (names_entry e) targets with
+  | Some n => if negb (mem (e_path e) excl) && cond_holds cond e n then Some n else None
+  | None => None
+  end.
+Definition stays (targets : list node) (e : entry) : bool :=
+  match refresh_of targets e with Some _ => false | None => true end.
+Definition job (targets : list node) (e : entry) : list node :=
+  match refresh_of targets e with Some n => [n] | None => [] end.
+Definition not_in (a : archive) (n : node) : bool := negb (mem (node_name n) (names a)).
+
+Lemma find_filter_other e e2 targets : e_path e2 <> e_path e ->
+  find (names_entry e2) (filter (fun m => negb (names_entry e m)) targets) = find (names_entry e2) targets.
+Proof.
+  intro H. induction targets as [|m l IH]; cbn; auto.
+  destruct (names_entry e m) eqn:N; cbn.
+  - unfold names_entry in *. apply bytes_eqb_eq in N. rewrite N. rewrite bytes_eqb_neq by auto. exact IH.
+  - destruct (names_entry e2 m); auto.
+Qed.
+Lemma flat_map_ext_in {A B} (f g : A -> list B) l : (forall x, In x l -> f x = g x) -> flat_map f l = flat_map g l.
+Proof. induction l as [|x l IH]; cbn; auto. intro H. rewrite (H x), IH; auto. Qed.
+Lemma not_in_cons_filter e a targets :
+  filter (not_in a) (filter (fun m => negb (names_entry e m)) targets) = filter (not_in (e :: a)) targets.
+Proof.
+  induction targets as [|m l IH]; [reflexivity|].
+  cbn [filter].
+  assert (E : not_in (e :: a) m = negb (names_entry e m) && not_in a m).
+  { unfold not_in, names_entry, names. cbn [map mem]. rewrite negb_orb. reflexivity. }
+  rewrite E. destruct (names_entry e m); cbn [negb andb filter]; [exact IH|].
+  destruct (not_in a m); rewrite IH; reflexivity.
+Qed.
+Lemma not_in_cons_none e a targets : find (names_entry e) targets = None ->
+  filter (not_in (e :: a)) targets = filter (not_in a) targets.
+Proof.
+  intro F. apply filter_ext_in. intros m Hm. unfold not_in. cbn.
+  pose proof (find_none _ _ F m Hm) as N. unfold names_entry in N. rewrite N. reflexivity.
+Qed.
+
+Lemma pass_spec : forall a targets refreshed,
+  NoDup (names a) -> (forall q, In q refreshed -> ~ In q (names a)) ->
+  update_pass excl cond a targets refreshed
+  = (filter (stays targets) a, flat_map (job targets) a, filter (not_in a) targets).
+Proof.
+  induction a as [|e a IH]; intros targets refreshed ND Hr; cbn [update_pass].
+  - cbn. f_equal. induction targets as [|m l IHl]; cbn; auto. f_equal. exact IHl.
+  - inversion ND as [|x l Hx ND']; subst.
+    destruct (find (names_entry e) targets) as [n|] eqn:F.
+    + set (targets' := filter (fun m => negb (names_entry e m)) targets).
+      assert (Hs : forall e2, In e2 a -> refresh_of targets' e2 = refresh_of targets e2).
+      { intros e2 H2. unfold refresh_of, targets'. rewrite find_filter_other; auto.
+        intro E. apply Hx. rewrite <- E. apply in_map. auto. }
+      assert (S1 : filter (stays targets') a = filter (stays targets) a).
+      { apply filter_ext_in. intros e2 H2. unfold stays. rewrite Hs; auto. }
+      assert (S2 : flat_map (job targets') a = flat_map (job targets) a).
+      { apply flat_map_ext_in. intros e2 H2. unfold job. rewrite Hs; auto. }
+      destruct (negb (mem (e_path e) excl) && cond_holds cond e n) eqn:C.
+      * rewrite (IH targets' (e_path e :: refreshed) ND').
+        2:{ intros q [Hq|Hq]; [subst; auto|]. intro Hin. apply (Hr q Hq). right. auto. }
+        assert (St : stays targets e = false) by (unfold stays, refresh_of; rewrite F, C; reflexivity).
+        assert (Jb : job targets e = [n]) by (unfold job, refresh_of; rewrite F, C; reflexivity).
+        cbv beta iota zeta. cbn [filter flat_map]. rewrite St, Jb. cbn [app].
+        rewrite S1, S2. unfold targets'. rewrite not_in_cons_filter. reflexivity.
+      * rewrite (IH targets' refreshed ND').
+        2:{ intros q Hq Hin. apply (Hr q Hq). right. auto. }
+        assert (St : stays targets e = true) by (unfold stays, refresh_of; rewrite F, C; reflexivity).
+        assert (Jb : job targets e = []) by (unfold job, refresh_of; rewrite F, C; reflexivity).
+        cbv beta iota zeta. cbn [filter flat_map]. rewrite St, Jb. cbn [app].
+        rewrite S1, S2. unfold targets'. rewrite not_in_cons_filter. reflexivity.
+    + assert (M : mem (e_path e) refreshed = false).
+      { apply mem_nIn. intro H. apply (Hr _ H). left. reflexivity. }
+      rewrite M. rewrite (IH targets refreshed ND').
+      2:{ intros q Hq Hin. apply (Hr q Hq). right. auto. }
+      assert (St : stays targets e = true) by (unfold stays, refresh_of; rewrite F; reflexivity).
+      assert (Jb : job targets e = []) by (unfold job, refresh_of; rewrite F; reflexivity).
+      cbv beta iota zeta. cbn [filter flat_map]. rewrite St, Jb. cbn [app].
+      rewrite not_in_cons_none by auto. reflexivity.
+Qed.
+End Spec.
+
+Theorem update_spec kd kt excl cond a walk a' :
+  NoDup (names a) -> update_cmd kd kt excl cond a walk = Ok a' ->
+  let targets := filter (wanted kd) walk in
+  a' = filter (stays excl cond targets) a
+       ++ map (fresh kt) (flat_map (job excl cond targets) a)
+       ++ map (fresh kt) (filter (not_in a) targets).
+Proof.
+  intros ND H. apply update_cmd_ok in H. cbn zeta in *.
+  rewrite pass_spec in H by (auto; intros q []). cbn in H. rewrite map_app in H. exact H.
+Qed.
+
+(* ---- histories keep names unique ---- *)
+Lemma nodup_app {A} (a b : list A) : NoDup a -> NoDup b -> (forall x, In x a -> ~ In x b) -> NoDup (a ++ b).
+Proof.
+  induction a as [|x a IH]; cbn; auto. intros Ha Hb H. inversion Ha; subst. constructor.
+  - intro Hin. apply in_app_or in Hin. destruct Hin as [Hin|Hin]; [auto|]. apply (H x); auto.
+  - apply IH; auto.
+Qed.
+Lemma names_fresh kt l : names (map (fresh kt) l) = map node_name l.
+Proof. unfold names. rewrite map_map. reflexivity. Qed.
+
+Lemma job_names excl cond targets a : map node_name (flat_map (job excl cond targets) a)
+  = names (filter (fun e => negb (stays excl cond targets e)) a).
+Proof.
+  induction a as [|e a IH]; cbn; auto. unfold job at 1, stays at 1, refresh_of.
+  destruct (find (names_entry e) targets) as [n|] eqn:F; cbn; auto.
+  destruct (negb (mem (e_path e) excl) && cond_holds cond e n); cbn; auto.
+  destruct (find_names _ _ _ F) as [_ En]. rewrite En, IH. reflexivity.
+Qed.
+Lemma nodup_partition {A B} (f : A -> B) g l : NoDup (map f l) ->
+  NoDup (map f (filter g l) ++ map f (filter (fun x => negb (g x)) l)).
+Proof.
+  intro ND. apply nodup_app; try (apply NoDup_map_filter; auto).
+  induction l as [|x l IH]; cbn; [tauto|]. inversion ND; subst.
+  intros y Hy Hn. destruct (g x) eqn:G; cbn in *.
+  - destruct Hy as [Hy|Hy].
+    + subst y. apply H1. eapply In_map_filter; eauto.
+    + eapply IH; eauto.
+  - destruct Hn as [Hn|Hn].
+    + subst y. apply H1. eapply In_map_filter; eauto.
+    + eapply IH; eauto.
+Qed.
+
+Theorem update_nodup kd kt excl cond a walk a' :
+  NoDup (names a) -> NoDup (map node_name (filter (wanted kd) walk)) ->
+  update_cmd kd kt excl cond a walk = Ok a' -> NoDup (names a').
+Proof.
+  intros ND NT H. apply (update_spec _ _ _ _ _ _ _ ND) in H. cbn zeta in H. subst a'.
+  set (T := filter (wanted kd) walk) in *.
+  unfold names. rewrite !map_app. fold (names (map (fresh kt) (flat_map (job excl cond T) a))).
+  fold (names (map (fresh kt) (filter (not_in a) T))). rewrite !names_fresh, job_names.
+  rewrite app_assoc. apply nodup_app.
+  - apply (nodup_partition e_path (stays excl cond T) a ND).
+  - apply NoDup_map_filter. exact NT.
+  - intros x Hx Hn. apply in_map_iff in Hn. destruct Hn as [m [E Hm]]. apply filter_In in Hm.
+    destruct Hm as [_ Hm]. unfold not_in in Hm. apply negb_true_iff, mem_nIn in Hm. apply Hm. rewrite E.
+    apply in_app_or in Hx. destruct Hx as [Hx|Hx]; eapply In_map_filter; eauto.
+Qed.
+
+Definition op_ok (a : archive) (o : op) : Prop :=
+  match o with
+  | OCreate kd _ w => NoDup (map node_name (filter (wanted kd) w))
+  | OAppend kd _ w => NoDup (map node_name (filter (wanted kd) w))
+                      /\ forall n, In n (filter (wanted kd) w) -> ~ In (node_name n) (names a)
+  | OUpdate kd _ _ _ w => NoDup (map node_name (filter (wanted kd) w))
+  | ODelete _ | ONop => True
+  end.
+Fixpoint hist_ok (a : archive) (ops : list op) : Prop :=
+  match ops with
+  | [] => True
+  | o :: r => op_ok a o /\ hist_ok (after a o) r
+  end.
+
+Lemma step_nodup a o : NoDup (names a) -> op_ok a o -> NoDup (names (after a o)).
+Proof.
+  intros ND OK. unfold after. destruct (step a o) as [a'| |] eqn:S; auto.
+  destruct o as [kd kt w|kd kt w|kd kt ex c w|m|]; cbn in *.
+  - unfold create_cmd in S. destruct (collect kd w) as [items| |] eqn:C; cbn in S; try discriminate.
+    apply collect_ok in C. apply build_ok in S. subst. rewrite names_fresh. exact OK.
+  - apply append_cmd_spec in S. subst a'. unfold names. rewrite map_app.
+    fold (names (map (fresh kt) (filter (wanted kd) w))). rewrite names_fresh.
+    destruct OK as [O1 O2]. apply nodup_app; auto.
+    intros x Hx Hn. apply in_map_iff in Hn. destruct Hn as [n [E Hn]]. apply (O2 n Hn). rewrite E. exact Hx.
+  - eapply update_nodup; eauto.
+  - inversion S. subst. unfold delete, delete_by. apply NoDup_map_filter. exact ND.
+  - inversion S. subst. exact ND.
+Qed.
+
+Theorem history_invariant : forall ops a, NoDup (names a) -> hist_ok a ops -> NoDup (names (final a ops)).
+Proof.
+  induction ops as [|o r IH]; intros a ND H; cbn in *; auto.
+  destruct H as [H1 H2]. apply IH; auto. apply step_nodup; auto.
+Qed.
+
+Lemma delete_spec matched a :
+  delete matched a = filter (fun e => negb (mem (e_path e) matched)) a.
+Proof. reflexivity. Qed.
+
+(* ---- the pass as it was before ff5cb171 (D13), kept for the record ---- *)
+Fixpoint update_pass_orig (excl : list bytes) (cond : N) (a : archive) (targets : list node)
+  : list entry * list node * list node :=
+  match a with
+  | [] => ([], [], targets)
+  | e :: a' =>
+    match find (fun n => bytes_eqb (n_path n) (e_path e)) targets with     (* target_items.contains(&normalized_path) *)
+    | Some n =>
+      let targets' := filter (fun m => bytes_eqb (n_path m) (e_path e)) targets in   (* retain(|p| p.normalize() == normalized_path) *)
+      if negb (mem (e_path e) excl) && cond_holds cond e n then
+        let '(k, j, t) := update_pass_orig excl cond a' targets' in (k, n :: j, t)
+      else
+        let '(k, j, t) := update_pass_orig excl cond a' targets' in (e :: k, j, t)
+    | None => update_pass_orig excl cond a' targets                         (* Ok(None): the entry is dropped *)
+    end
+  end.
+Definition update_orig (kt : bool) (excl : list bytes) (cond : N) (a : archive) (targets : list node) : archive :=
+  let '(k, j, t) := update_pass_orig excl cond a targets in k ++ map (fresh kt) (j ++ t).
+
+Definition d13_a : archive :=
+  [mkE (lit "d/a") 0 (lit "one") None; mkE (lit "d/b") 0 (lit "two") None; mkE (lit "d/c") 0 (lit "three") None].
+Definition d13_targets : list node := [mkN (lit "d/a") 0 (lit "ONE2") 1700000000000000000].
+
+Lemma update_unrepaired_loses :
+  exists a targets e, In e a /\ ~ In (e_path e) (map node_name targets)
+    /\ ~ In (e_path e) (names (update_orig false [] 0 a targets))
+    /\ names (update_orig false [] 0 a targets) = [lit "d/a"; lit "d/a"].
+Proof.
+  exists d13_a, d13_targets, (mkE (lit "d/b") 0 (lit "two") None). repeat split.
+  - cbn. auto.
+  - apply mem_nIn. vm_compute. reflexivity.
+  - apply mem_nIn. vm_compute. reflexivity.
+Qed.
+(* the repaired pass on the same input keeps d/b and d/c and holds d/a once, with the new content *)
+Lemma update_repaired_witness :
+  update_cmd false false [] 0 d13_a d13_targets
+  = Ok [mkE (lit "d/b") 0 (lit "two") None; mkE (lit "d/c") 0 (lit "three") None; mkE (lit "d/a") 0 (lit "ONE2") None].
+Proof. vm_compute. reflexivity. Qed.
